@@ -80,6 +80,10 @@ def make_scenario(rng, corpus_ids=None, gen_pool=None):
                 # contending viral / time-period calls
                 pool = [x for x in fc if x[0].startswith(("viral", "tp-"))]
                 name, op = rng.choice(pool)
+            elif mode < 0.5:
+                # calls whose outcome embeds virtual names / the statement's output dataset
+                pool = [x for x in fc if x[0].startswith(("sem-", "virt-", "div0"))]
+                name, op = rng.choice(pool)
             elif r < 0.55:
                 name, op = rng.choice(fc)
             elif r < 0.85 or not corpus_ids:
@@ -112,12 +116,14 @@ def _op_key(op):
 
 
 def _alone_child(op):
-    sb = ops.Sandbox("c17a")
-    try:
-        SIM.reset(seed=0)
-        return ops.execute_op(op, sb, 0)
-    finally:
-        sb.cleanup()
+    """The call alone, in a pristine process, on one scheduler thread with the simulated locks
+    (so that a call that blocks on a lock it already holds is a deterministic 'deadlock'
+    outcome instead of a hung child)."""
+    scn = {"threads": [[{"name": "alone", "op": op}]], "strategy": {"kind": "phase", "p": 0.0}, "sched_seed": 0}
+    ch = _scenario_child(scn)
+    if ch["failure"]:
+        return ("sched-failure", ch["failure"][0], ch["failure"][1])
+    return ch["results"]["T0"][0]
 
 
 _alone_cache = {}
@@ -234,6 +240,11 @@ def judge(scn, child):
             continue
         for ci, c in enumerate(calls):
             ref = alone(c["op"])
+            if ref[0] == "sched-failure":
+                if ref[1] == "Deadlock":
+                    viols.append(("deadlock", "call %s deadlocks even when executed alone: %s" % (c["name"], ref[2]), {"alone": True}))
+                    continue
+                raise proc.HarnessError("alone reference failed: %s" % (ref,))
             d = ops.diff_outcomes(ref, got[ci], tol=1e-9, compare_messages=True)
             if d:
                 sig = {"call_kinds": sorted({_kind(x["op"]) for cl in scn["threads"] for x in cl}),
@@ -386,11 +397,11 @@ def run(ctx):
             seen.add(key)
             reps.append(v)
     if reps:
-        mins = ctx.map("task_minimise", [{"violation": v} for v in reps[:4]], budget_s=max(60.0, ctx.remaining()))
-        out = []
-        for (_t, r) in mins:
-            out.append(r["violation"])
-        violations = out + [v for v in reps[4:]]
+        todo = reps[:4]
+        mins = ctx.map("task_minimise", [{"violation": v, "idx": i} for i, v in enumerate(todo)], budget_s=120.0, force=True)
+        for (t, r) in mins:
+            reps[t["idx"]] = r["violation"]
+    violations = reps
     coverage = {
         "evaluations": n_eval,
         "distinct_nontrivial": len(inter),
